@@ -106,6 +106,12 @@ pub fn judge(
         }
         if it.end <= it.start || it.end > len {
             f.push(Finding { property: "C03", at: it.start, what: format!("item {it:?} has an empty or out-of-range span (len {len})") });
+            if it.end > len && it.kind.is_some() {
+                // whatever the reference says at it.start, no matched prefix of the remaining input is that long
+                f.push(Finding { property: "C01", at: it.start, what: format!("token {it:?} covers more than the remaining input (len {len})") });
+            } else if it.end > len {
+                f.push(Finding { property: "C02", at: it.start, what: format!("error {it:?} ends beyond the end of the input (len {len})") });
+            }
             pos = pos.max(it.end.min(len));
             continue;
         }
